@@ -3,8 +3,7 @@ CONSTANT SDs <- MC_SD2
 CONSTANT L0s <- MC_L0s
 CONSTANT Positions <- MC_Pos3
 CONSTANT Ops <- MC_Ops3
-CONSTANT NowL0 = 2
-CONSTANT NowPos <- MC_NowPos
+CONSTANT Clock <- MC_ClockFixed
 CONSTANT DefaultRk = "rk1"
 CONSTANT ReplyKinds <- MC_Seed
 CONSTANT LaterReplies = FALSE
